@@ -306,8 +306,8 @@ func (env *SEnv) ident(name string) *SVal {
 			}
 		}
 	}
-	for _, p := range vc.eng.ByName[name] {
-		return &SVal{Pkg: p.PkgPath}
+	if pp := vc.eng.nearestPkg(env.pkgPath, name); pp != "" {
+		return &SVal{Pkg: pp}
 	}
 	sfail("unknown identifier %q", name)
 	return nil
@@ -724,10 +724,10 @@ func (env *SEnv) call(e *SExpr) *SVal {
 			allLit = false
 		}
 	}
-	if sf.Body == nil || (sf.Recursive && !(allLit && env.depth < 400)) {
+	if sf.Body == nil || (sf.Recursive && !(allLit && env.depth < 4000)) {
 		return env.callUF(sf, avs)
 	}
-	if env.depth > 60 && !sf.Recursive {
+	if env.depth > 4000 && !sf.Recursive {
 		sfail("spec function expansion too deep at %s", name)
 	}
 	ne := env.child()
@@ -901,6 +901,18 @@ func (env *SEnv) builtin(name string, args []*SExpr, e *SExpr) *SVal {
 		need(1)
 		x := env.materialize(env.tr(args[0]), nil)
 		return &SVal{T: vc.slArr(x.T), Go: types.Typ[types.Int]}
+	case "funcref":
+		// funcref(name): the value of the named top-level function of the current package when used as a function value
+		need(1)
+		if args[0].K != EIdent {
+			sfail("funcref needs a function name")
+		}
+		sp := vc.eng.SPkgs[env.pkgPath]
+		if sp == nil || sp.Func(args[0].Op) == nil {
+			sfail("funcref: no function %s in %s", args[0].Op, env.pkgPath)
+		}
+		fn := sp.Func(args[0].Op)
+		return &SVal{T: vc.eng.funcIDTerm(fn), Go: fn.Signature}
 	case "cell":
 		// cell(s, j): element j of the array backing slice s, indexed from the start of the array (s[k] == cell(s, off(s)+k));
 		// stating a range property over cells makes it carry over to sub-slices without index arithmetic
